@@ -92,10 +92,11 @@ CHECKS["C09"] = {
     "min": {"distinct_nontrivial": {"quick": 50, "thorough": 50}, "counters": {"conservation_cuts": 10000, "allzero_checks": 300, "requests_received": 2000, "backpressure": 300, "large_pieces_completed:above-4GiB": 10}},
     "parts": [{"name": "download", "pkg": "c09_conserve", "netns": "isolated", "race": False, "shards": 16, "env": {"VERIF_PROP": "C09"}},
               {"name": "download-race", "pkg": "c09_conserve", "netns": "isolated", "race": True, "shards": 16, "env": {"VERIF_PROP": "C09", "VERIF_RACE_SUBSET": "1"}},
-              {"name": "large", "pkg": "c09_conserve", "netns": "isolated", "race": False, "shards": 9, "env": {"VERIF_PROP": "C09"}}],
-    "technique": "runtime monitor: conservation equations (availability, in-flight) evaluated by reflect at every quiescent cut of a virtual-time swarm against both the peer actors' state and the scripted remotes' own view; storrent's own 'Eek' alarms captured; -race",
+              {"name": "large", "pkg": "c09_conserve", "netns": "isolated", "race": False, "shards": 9, "env": {"VERIF_PROP": "C09"}},
+              {"name": "webseed-release", "pkg": "c14_webseed", "race": False, "shards": 16, "env": {"VERIF_PROP": "C09"}}],
+    "technique": "runtime monitor: conservation equations (availability, in-flight) evaluated by reflect at every quiescent cut of a virtual-time swarm against both the peer actors' state and the scripted remotes' own view; storrent's own 'Eek' alarms captured; -race; web-seed reservations: the writer's TorData/TorDrop events fed to the real handlers and Torrent.inFlight read by reflection after every real fetch against a hostile HTTP server",
     "level_text": "The real torrent loop and peer actors run against scripted remotes in virtual time; after every step the two bookkeeping equations are evaluated at an exact quiescent cut and again after everybody disconnected. Held on the histories observed.",
-    "level_note": "web-seed reservations are judged in C14; this check runs without web seeds",
+    "level_note": "the swarm parts run without web seeds; the web-seed clause (every block reserved for a fetch is released exactly once, whatever the server answers and however the body is cut) is decided by part 'webseed-release', which is C14's writer and fetch workload reporting only in-flight leaks and over-releases",
 }
 CHECKS["C11"] = {
     "level": "exploration",
